@@ -7,7 +7,7 @@ def consts(): return C7.consts()
 
 class C06(F.PropCheck):
     pid = 'C06'; gen_groups = ['RelayConsts']; prop_file = 'Properties_C06'
-    IN = {'CFG': 0, 'REG': 1, 'ITER': 2, 'SETV': 3, 'GRP': 4, 'BTN': 5, 'TICK': 6, 'TIME2': 7}
+    IN = {'CFG': 0, 'REG': 1, 'ITER': 2, 'SETV': 3, 'GRP': 4, 'BTN': 5, 'TICK': 6, 'TIME2': 7, 'CHCFG': 8, 'SENTRES': 9}
     OUT = {0: 'GPIO', 5: 'UNKNOWN-EVENT', 10: 'VAL', 11: 'RES', 12: 'EXT', 13: 'DROP', 14: 'Q', 15: 'WOTH'}
     quick_cases = 3000; thorough_cases = 80000
     trusted_extra = ['C06 driver harness/drv/c06.c on harness/include/c07_core.h: real proto/srpc/devconn, device connected by calling the connect callback, '
@@ -205,7 +205,7 @@ class C06(F.PropCheck):
                     expect_res.append((k, ch, sender & 0xFFFFFFFF if sender < 0 else sender, 0, 'QUEUE-FULL' if drops else None))
             elif drops:
                 for r in rel: blame.setdefault(r[1], 'QUEUE-FULL')
-            q = seg[-1][1]; qprev = (q[1], q[2]); tprev = q[0]
+            q = seg[-1][1]; qprev = (q[1], q[2] + (q[3] if len(q) > 3 else 0)); tprev = q[0]      # bytes: proto buffer + devconn's send buffer
             if registered and qprev == (0, 0):
                 # idle: every reported change equals the real state, every request so far has its one result
                 for ch in sorted(changed):
